@@ -195,6 +195,8 @@ func main() {
 		kw = 7
 	}
 	rx.KeywordSpace(kw, check)
+	rx.SequenceSpace(r.Quick(), check)
+	rx.OverlapSpace(r.Quick(), check)
 	if !r.Quick() {
 		rx.DeepSpace(check)
 	}
